@@ -30,6 +30,7 @@ EXPLANATION = (
     "splitting or merging struct formats or renaming locals is invisible while a dropped, extra, re-typed, reordered or "
     "mis-bound field is reported by name. Version dispatch is evaluated on the abstract values {0} and >= 2."
     ' Also: the compressed wrapper is written in the format of the messages it wraps (R4); the fallback state of the version table is one falsy constant used by every store and comparison (R6/R7).'
+    " The negotiated version state is written only by the discovery functions, never reset to `undiscovered` after construction, and the fall-back is stored only where `_api_versions is None` holds since the last suspension (overlapping discoveries)."
 )
 SHARED = [('C16', ['R3'], 'after UNKNOWN_MEMBER_ID the member id is reset to the empty string the JoinGroup grammar asks for on a first join (not to a null)'), ('C07', ['R7'], 'version discovery tries every broker and every bootstrap host whatever the error, and so ends in an answer or in the fallback to version 0')]
 ASSUMPTIONS = ["Kafka protocol guide layouts as transcribed in afkverif/kafka_schema.py (DESIGN.md appendix A)",
